@@ -4,10 +4,11 @@ import json, os, sys
 sys.path.insert(0, os.path.dirname(os.path.dirname(os.path.abspath(__file__))))
 
 PY = '/venv/bin/python'
+E2E_EXTRA = (' Also: legacy S3Transfer front-end on real threads with schedule-independent oracles where the property names it; a thin real-scale class (unscaled ChunksizeAdjuster, MiB payloads) in C01/C02; exhaustive single-fault / single-preemption enumeration over a fixed scenario matrix in C03-C06; line-granularity preemption (sys.monitoring) in a quarter of the C04/C08/C10/C18 cases.')
 E2E_NOTE = 'Trusted: vt/detsched.py (scheduler, threading/time shims, executor with ThreadPoolExecutor semantics), vt/fakes3.py (fake S3 + botocore body protocol), vt/fakefs.py (in-memory FS behind OSUtils), scaled ChunksizeAdjuster limits. Verdict = held on every generated case; evidence reports counts, classes and samples.'
 
 def e2e(text, tech, ref):
-    return dict(cat='exploration', ref=ref, text=text, note=E2E_NOTE,
+    return dict(cat='exploration', ref=ref, text=text, note=E2E_NOTE + E2E_EXTRA,
                 technique='property-based testing: ' + tech)
 
 CHECKS = {
@@ -25,7 +26,7 @@ CHECKS = {
                 technique='property-based testing: fault plans + schedules, invariant checked at every file-system mutation'),
     'C07': e2e('Every cancellation entry point (future.cancel from a second thread, shutdown(cancel, msg), exception / KeyboardInterrupt leaving the with-block, Ctrl-C while parked in result()/shutdown()) at generated steps x schedules; oracle on exception type+message, zero requests for not-started transfers, cleanups, racing success must be complete.', 'Hypothesis cancel points + schedules, outcome oracle', 'DESIGN.md 4/C07'),
     'C08': e2e('Recording subscribers (1-3 per transfer, some raising, some supplying size) x all outcomes x schedules; oracle on callback steps versus the fake-S3 call log (once, ordered, after the work, result() not blocking, no progress after done).', 'Hypothesis cases + schedules, trace-order oracle', 'DESIGN.md 4/C08'),
-    'C09': e2e('Progress accounting under body rewinds, suppressed signing reads, aws-chunked wrapper, stream retries and a scaled aggregation threshold; oracle sum==size, running sum in [0,size]; plus a ReadFileChunk reference-model machine (read/seek/enable/disable sequences).', 'Hypothesis cases + reference cursor model', 'DESIGN.md 4/C09'),
+    'C09': e2e('Progress accounting under body rewinds, suppressed signing reads, aws-chunked wrapper, stream retries and a scaled aggregation threshold; oracle sum==size, running sum in [0,size]; plus a ReadFileChunk reference-model machine (read/seek/enable/disable sequences) and a differential validation of the fake body protocol against a real botocore client answered locally.', 'Hypothesis cases + reference cursor model', 'DESIGN.md 4/C09; 10'),
     'C10': e2e('2-6 concurrent transfers with limits biased to 1 under PCT/walk/preempt schedules; oracle at every step from begin/end events and instrumented executors (in-flight requests, stage of each request, queue occupancy, executor wiring, single writer).', 'Hypothesis cases + schedules, step-wise counting oracle', 'DESIGN.md 4/C10'),
     'C11': e2e('Stream uploads and non-seekable ranged downloads sharing a manager with in-memory limits 1-3; step-wise oracle on bytes read awaiting a finished part, download window per transfer and in sum, pending writes.', 'Hypothesis cases + schedules, step-wise bound oracle', 'DESIGN.md 4/C11'),
     'C12': dict(cat='exploration', ref='DESIGN.md 4/C12', note='Reference model written from the statement; sequential histories run on an inline shim (blocking = failure), blocking histories and quiescence under vt/detsched.py. Exhaustive only for the stated depth/tags/capacities.',
